@@ -2,8 +2,8 @@
 # tools/try_seed.sh <PROP> <A|B> [extra check ids...]: confirm a seeded change in its scratch worktree (tests pass, demo fails
 # with / passes without), then run our check(s) with REPO_ROOT pointing at the patched worktree
 ID=$1; X=$2; shift; shift
-S=/tmp/seed/$ID; WT=/tmp/wt/$ID
-OUT=/tmp/seed/$ID/result_$X.txt
+S=${SEEDROOT:-/tmp/seed}/$ID; WT=${WTROOT:-/tmp/wt}/$ID
+OUT=$S/result_$X.txt
 {
 cd $WT && git checkout -q -- . && git clean -fdq
 echo "== demo on clean tree"; /venv/bin/python $S/demo_$X.py >/dev/null 2>&1; echo "exit $?"
